@@ -21,7 +21,7 @@ RULE = (
     "Non-trivial: >= 1 mutation dropped, >= 1 kept and rows not in canonical order. Distinct: hash of the table+options."
 )
 ASSUMPTIONS = [
-    "mutation ids are all strings or all integers; cluster files list exactly the kept mutations",
+    "mutation ids are all strings or all integers; cluster files list exactly the mutations of the input table",
     "major<minor is only placed on kept rows (nothing is claimed for dropped rows)",
 ]
 STATUSES = ["present", "present", "present", "missing", "dup", "zero", "present+zero"]
@@ -136,10 +136,17 @@ def evaluate(case):
             pass
         return Outcome(nontrivial=False, classes=("all-dropped",), info=dict(rows=rows[:4]))
     clusters = None
+    member = None
     if case["cluster_ids"] is not None:
         cid = dict(zip(case["mut_ids"], case["cluster_ids"]))
-        clusters = {m: cid[m] for m in kept}
+        # the cluster file lists every mutation of the input table (README: must match), including those the loader
+        # drops; clusters whose mutations are all dropped must simply not appear (numbering stays 0..n-1)
+        present = [m for m in case["mut_ids"] if any(r["mutation_id"] == m for r in rows)]
+        clusters = {m: cid[m] for m in present}
+        member = {m: cid[m] for m in kept}
         classes.add("clustered")
+        if set(cid[m] for m in present) - set(member.values()):
+            classes.add("cluster-with-all-mutations-dropped")
     # --- major < minor on a kept row must be rejected
     if case["bad_cn"]:
         cand = [i for i, r in enumerate(rows) if r["mutation_id"] in kept and r["major_cn"] > 0]
@@ -177,7 +184,7 @@ def evaluate(case):
     if clusters is None:
         exp = [(str(m), grids[m]) for m in kept]
     else:
-        exp = [(str(c), sum(grids[m] for m in kept if clusters[m] == c)) for c in sorted(set(clusters.values()))]
+        exp = [(str(c), sum(grids[m] for m in kept if member[m] == c)) for c in sorted(set(member.values()))]
     names = [nm for _, nm, _ in got]
     if names != [e[0] for e in exp] or [i for i, _, _ in got] != list(range(len(exp))):
         what = "filter" if set(names) != set(e[0] for e in exp) else "order"
